@@ -453,7 +453,9 @@ def parse_w(tok):
 def parse_show(line):
     t = line.split(' ')
     if t[0] != 'ok':
-        raise MachineryError('unexpected model answer %r' % line)
+        # e.g. `err noobj`: the model never created this grid (model and implementation diverged earlier) —
+        # a difference for the correspondence to report, not a fault of the machinery
+        return {'refused': line}
     sysm, kind = t[1], t[2]
     if kind == 'reg':
         data = [parse_rat_list(t[3]), [int(x) for x in parse_rat_list(t[4])], parse_rat_list(t[5])]
@@ -489,6 +491,8 @@ def w_same(m, r):
 
 def compare_show(model, real, real_getw, weights=True):
     """Returns None or a short description of the first difference. Exactness flag second."""
+    if 'refused' in model:
+        return 'the model has no such grid: it answered %r' % model['refused']
     if model['sys'] != real['sys']:
         return 'system %s vs %s' % (model['sys'], real['sys'])
     if model['kind'] != real['kind']:
